@@ -348,3 +348,56 @@ End REQUESTS.
 
 Lemma call_good_consistent : forall cs, Forall call_good cs -> Forall (fun c => dcall_consistent c = true) cs.
 Proof. intros cs H. eapply Forall_impl; [|exact H]. intros c [Hc _]. exact Hc. Qed.
+
+(* ------------------------------------------------------------------------------------------ *)
+(** * 5. Profile requests at the shared batch *)
+
+Lemma opt_all_map_some : forall (A B : Type) (g : A -> option B) (l : list A) r,
+  opt_all (map g l) = Some r -> List.length r = List.length l /\ forall i a, nth_error l i = Some a -> exists b, g a = Some b /\ nth_error r i = Some b.
+Proof.
+  induction l as [|x l IH]; intros r H; cbn [map opt_all] in H.
+  - inversion H; subst. split; [reflexivity|]. intros [|i] a Ha; discriminate.
+  - destruct (g x) as [b|] eqn:E; [|discriminate]. destruct (opt_all (map g l)) as [y|] eqn:E2; [|discriminate].
+    inversion H; subst. destruct (IH y eq_refl) as [Hl Hn]. split; [cbn; now rewrite Hl|].
+    intros [|i] a Ha; cbn [nth_error] in *.
+    + inversion Ha; subst. exists b. split; [exact E|reflexivity].
+    + exact (Hn i a Ha).
+Qed.
+
+Lemma all_equal_forall : forall l v, (forall x, In x l -> x = v) -> all_equal l = true.
+Proof.
+  intros [|x r] v H; [reflexivity|]. cbn [all_equal]. apply forallb_forall. intros y Hy.
+  rewrite (H x (or_introl eq_refl)), (H y (or_intror Hy)). apply N.eqb_refl.
+Qed.
+
+(* a request with one row per column is accepted ... *)
+Lemma profile_one_row_rectangular : forall p cols c,
+  profile_request_cols p cols 1 = Some c -> all_equal c = true /\ List.length c = List.length cols.
+Proof.
+  intros p cols c H. unfold profile_request_cols in H. destruct (opt_all_map_some _ _ _ _ _ H) as [Hl Hn]. split; [|exact Hl].
+  apply (all_equal_forall c 1). intros x Hx. apply In_nth_error in Hx as [i Hi].
+  assert (Hlt : (i < List.length cols)%nat) by (rewrite <- Hl; apply nth_error_Some; congruence).
+  destruct (nth_error cols i) as [col|] eqn:Ec; [|apply nth_error_None in Ec; lia].
+  destruct (Hn i col Ec) as [b [Hb Hi']]. rewrite Hi in Hi'. inversion Hi'; subst b.
+  unfold kop_rows in Hb. destruct (snd col) as [f|f|s]; [destruct (is_app (pp_ops p) f)|destruct (is_set (pp_ops p) f)|]; congruence.
+Qed.
+
+(* ... and one with any other number of rows is torn as soon as the service has a per-row column first and a
+   per-request column somewhere: exactly the shape profile_ok demands *)
+Lemma profile_other_rows_torn : forall p fields cols unknown calls c,
+  profile_ok p fields cols unknown = true -> calls <> 1 -> profile_request_cols p cols calls = Some c -> all_equal c = false.
+Proof.
+  intros p fields cols unknown calls c Hok Hne H. unfold profile_ok in Hok.
+  apply andb_true_iff in Hok as [Hok Hone]. apply andb_true_iff in Hok as [_ Hfirst].
+  destruct cols as [|[n0 k0] rest]; [discriminate|]. destruct k0 as [f0| |]; try discriminate. clear Hfirst.
+  unfold profile_request_cols in H. cbn [map opt_all snd kop_rows] in H.
+  destruct (is_app (pp_ops p) f0); [|discriminate].
+  destruct (opt_all (map (fun c0 => kop_rows (pp_ops p) calls (snd c0)) rest)) as [y|] eqn:E; [|discriminate].
+  inversion H; subst c. cbn [all_equal]. cbn [existsb snd] in Hone.
+  apply existsb_exists in Hone as [col [Hin Hk]]. destruct (snd col) as [|g|] eqn:Ek; try discriminate.
+  apply In_nth_error in Hin as [i Hi]. destruct (opt_all_map_some _ _ _ _ _ E) as [_ Hn].
+  destruct (Hn i col Hi) as [b [Hb Hy]]. rewrite Ek in Hb. cbn [kop_rows] in Hb. destruct (is_set (pp_ops p) g); [|discriminate].
+  inversion Hb; subst b. apply nth_error_In in Hy.
+  destruct (forallb (N.eqb calls) y) eqn:F; [|reflexivity]. rewrite forallb_forall in F. specialize (F 1 Hy).
+  apply N.eqb_eq in F. contradiction.
+Qed.
